@@ -6,6 +6,22 @@ VERIF = os.path.dirname(os.path.dirname(os.path.abspath(__file__)))
 BASE = "cd /repo && /venv/bin/python -m pytest -ra -q -p no:cacheprovider --timeout=900 --continue-on-collection-errors"
 
 CLAIMED = {
+    "C01": dict(
+        text="Coq theorems over a model of the call a generated Fortran specific makes to its bind(C) interface (per interface "
+             "parameter: source dummy argument and conversion; value semantics of pass-through, capsule, logical coercion, "
+             "len_trim / len / size, trim//NUL): a specific that passes the check hands every interface parameter the documented "
+             "value for ALL values of the dummy arguments, in interface order; character input reaches C as the buffer or its "
+             "trimmed NUL-terminated copy; trimming removes only trailing blanks. Translation validation on every run: every "
+             "bind(C) call in the modules generated from /repo for 24+ generated libraries x {plain, debug} and 12 regression "
+             "inputs is extracted (fail closed) and checked by vm_compute. The chain to the C++ callee: C04 (interface = "
+             "prototype), C02 (C wrapper delivers), C10 (string helpers). Search / validation: every generated library is built "
+             "as a direct C++ program and as a Fortran program using only the generated module (gfortran + g++ under ASan, option "
+             "sets plain / debug / F_CFI) with the same values; callee-side trace and caller-side results must be identical.",
+        note="Trusted: Coq kernel, the flow extractor tools/fflow.py, the generator tools/eqgen.py, gfortran/g++/ASan. Result and "
+             "output-argument delivery (copy-out, allocation, blank padding) is covered by the runs and by C10's theorems, not by a "
+             "theorem here; language c libraries and generic / assumed-rank variants only through the regression inputs in the table.",
+        technique="Coq proof of a checker's soundness + per-run translation validation of generated Fortran specifics (vm_compute); differential runs for the search",
+        design="4/C01"),
     "C02": dict(
         text="Coq theorem over a model of the argument passing of a C wrapper (per C++ parameter: source C parameter and "
              "conversion; value semantics of Direct / Deref / enum cast / std::string construction / capsule address): a wrapper "
